@@ -7,6 +7,17 @@
 
 #define RESPONSE_LENGTH TORSION_PLUS_EVEN_POWER + 16
 
+#ifdef SQISIGN_SQISIGN2D_WEST_AC24_VERIF
+sqisign_verif_tap_fn sqisign_verif_tap = 0;
+#define VERIF_TAP(tag, obj, val)                                                                   \
+    do {                                                                                           \
+        if (sqisign_verif_tap)                                                                     \
+            sqisign_verif_tap((tag), (obj), (val));                                                \
+    } while (0)
+#else
+#define VERIF_TAP(tag, obj, val)
+#endif
+
 const clock_t time_isogenies_odd = 0;
 const clock_t time_sample_response = 0;
 const clock_t time_change_of_basis_matrix = 0;
@@ -931,6 +942,7 @@ protocols_verif(signature_t *sig, const public_key_t *pk, const unsigned char *m
 
     ec_curve_t Echall = Epk;
     ec_eval_even(&Echall, &phi_chall, &bas_EA.P, 1);
+    VERIF_TAP("E_chall", &Echall, phi_chall.length);
     // printf("challenge computation length : %d ",phi_chall.length);
     // TOC_clock(t,"");
 
@@ -998,6 +1010,7 @@ protocols_verif(signature_t *sig, const public_key_t *pk, const unsigned char *m
         //     ec_dbl(&ker,&Echall,&ker);
         // }
         assert(test_point_order_twof(&ker, &E_chall_2, sig->two_resp_length));
+        VERIF_TAP("small_ker", &ker, sig->two_resp_length);
         ec_eval_small_chain(&E_chall_2, &ker, sig->two_resp_length, points, 3);
 
         assert(test_point_order_twof(&points[0], &E_chall_2, 2 + pow_dim2_deg_resp));
@@ -1032,6 +1045,11 @@ protocols_verif(signature_t *sig, const public_key_t *pk, const unsigned char *m
     copy_point(&T1.P1, &B_chall_can.P);
     copy_point(&T2.P1, &B_chall_can.Q);
     copy_point(&T1m2.P1, &B_chall_can.PmQ);
+    VERIF_TAP("E1", &EchallxEaux.E1, 0);
+    VERIF_TAP("E2", &EchallxEaux.E2, 0);
+    VERIF_TAP("T1", &T1, pow_dim2_deg_resp);
+    VERIF_TAP("T2", &T2, pow_dim2_deg_resp);
+    VERIF_TAP("T1m2", &T1m2, pow_dim2_deg_resp);
 
     // computing the isogeny
     int extra_info = 1;
@@ -1051,9 +1069,12 @@ protocols_verif(signature_t *sig, const public_key_t *pk, const unsigned char *m
     // apparently its always the second one
     ec_curve_t E_com;
     copy_curve(&E_com, &isog.codomain.E2);
+    VERIF_TAP("E_com_alt", &isog.codomain.E1, 0);
+    VERIF_TAP("E_com", &E_com, 0);
 
     // recomputing the challenge vector
     hash_to_challenge(&check_vec_chall, &E_com, m, pk, l);
+    VERIF_TAP("check_chall", &check_vec_chall, 0);
 
     // performing the final check
     if (sig->chall_b) {
